@@ -4,6 +4,8 @@
  *   mode init|adv
  *   pin type=<n> digest=<hex of the ASCII digest string> len=<n> [late=1]     (adv mode only; any subset; late=1: the pins are
  *                              set after zck_read_lead and before zck_read_header)
+ *   prev <mode> <blob>       adv mode: the context has a past - it first sees this other file (mode 1: zck_validate_lead only, mode 2: lead and
+ *                            header read), then zck_init_adv_read() is called again on the same context with the file under test
  *   base <blob>
  *   subst <lo> <hi>          one case per position: all 255 substitute values are tried in-process
  *   edit <pos> <ndel> <ins>  one case: delete ndel bytes at pos, insert ins
@@ -24,6 +26,7 @@ typedef struct {
     int adv;
     int pin_type; blob pin_digest; long pin_len; int have_pin_type, have_pin_digest, have_pin_len, pin_late;
     int allocfail;
+    blob prev; int prevmode;
     int retry;          /* a caller that answers a failed step with zck_clear_error() and calls the step again (healthy allocator) */
     ocase *cases; int n;
 } octx;
@@ -47,7 +50,15 @@ static int try_open(int fd, octx *c, char *msg, size_t msgn) {
     if(!c->adv) {
         ok = zck_init_read(zck, fd);
     } else {
+        int pfd = -1;
+        if(c->prev.n) {
+            pfd = tmp_file_with("op", c->prev.p, c->prev.n);
+            if(!zck_init_adv_read(zck, pfd)) die("prev: init");
+            if(c->prevmode == 1) { if(!zck_validate_lead(zck)) die("prev: lead refused: %s", zck_get_error(zck)); }
+            else if(!zck_read_lead(zck) || !zck_read_header(zck)) die("prev: does not open: %s", zck_get_error(zck));
+        }
         ok = zck_init_adv_read(zck, fd);
+        if(pfd >= 0) real_close(pfd);
         /* late=1: the caller sets its pins between reading the lead and reading the header */
         int lead_ok = 1;
         if(ok && c->pin_late) lead_ok = step(zck, c, zck_read_lead);
@@ -140,6 +151,7 @@ int cmd_openenum(FILE *job, FILE *out) {
         if(n == 0) { free(t); free(line); continue; }
         if(!strcmp(t[0], "mode")) c.adv = !strcmp(t[1], "adv");
         else if(!strcmp(t[0], "allocfail")) c.allocfail = atoi(t[1]);
+        else if(!strcmp(t[0], "prev")) { c.prevmode = atoi(t[1]); c.prev = blob_arg(t[2]); }
         else if(!strcmp(t[0], "retry")) c.retry = atoi(t[1]);
         else if(!strcmp(t[0], "base")) c.base = blob_arg(t[1]);
         else if(!strcmp(t[0], "pin")) {
